@@ -21,6 +21,7 @@ import time
 VERIF = os.path.dirname(os.path.dirname(os.path.abspath(__file__)))
 SPEC_DIR = os.path.join(VERIF, 'spec')
 REPO = os.environ.get('VERIF_REPO', '/repo')
+OUT = os.environ.get('VERIF_OUT', VERIF)   # seeded-change runs redirect evidence/replays away from /verif
 TLA_CP = '/opt/veriftools/tla/tla2tools.jar:/opt/veriftools/tla/CommunityModules-deps.jar'
 
 
@@ -268,8 +269,8 @@ class Ctx(object):
                 return False
         self.violations.append(rec)
         if len(self.violations) <= self.max_report:
-            os.makedirs(os.path.join(VERIF, 'replays'), exist_ok=True)
-            path = os.path.join(VERIF, 'replays', '%s-%d.json' % (self.prop, len(self.violations)))
+            os.makedirs(os.path.join(OUT, 'replays'), exist_ok=True)
+            path = os.path.join(OUT, 'replays', '%s-%d.json' % (self.prop, len(self.violations)))
             with open(path, 'w') as fh:
                 json.dump(rec, fh, indent=1, sort_keys=True, default=str)
             print('VIOLATION property=%s replay=%s' % (self.prop, path))
@@ -314,8 +315,8 @@ class Ctx(object):
             'wall_s': round(wall, 2),
             'violations': len(self.violations),
         }
-        os.makedirs(os.path.join(VERIF, 'evidence'), exist_ok=True)
-        path = os.path.join(VERIF, 'evidence', '%s.json' % self.prop)
+        os.makedirs(os.path.join(OUT, 'evidence'), exist_ok=True)
+        path = os.path.join(OUT, 'evidence', '%s.json' % self.prop)
         with open(path, 'w') as fh:
             json.dump(ev, fh, indent=1, sort_keys=True, default=str)
         shutil.rmtree(self.tmp, ignore_errors=True)
